@@ -11,7 +11,18 @@ Decided (structural clauses, nothing executed):
   R25.3 (E5) every exception that can leave ``DNSLayer.unpack_message`` / ``DNSMessage.unpack`` on untrusted bytes (explicit raises +
         modelled implicit raisers: struct, index, idna decode/encode, recursion depth) is handled by the handler around the call
         in ``DNSLayer.state_query`` (today: struct.error only).
-NOT decided: value-level round-trip equality (encode . decode = id) over all messages.
+  R25.4 (known-bits abstract interpretation of the encoder) every bit-field composition evaluated by ``DNSMessage.packed`` and the
+        functions it reaches (nested helpers, ``domain_names.*``, methods) - ``a | b``, ``acc |= b``, and ``K + b`` with a
+        constant K whose low byte is zero used as a struct field - is lossless: the masks of the bits each operand can set are
+        pairwise disjoint.  A mask comes from a constant, from a range check / comparison guard dominating the use, from
+        everything assigned to a local, passed for a parameter by the encoder's call sites, or stored into a local
+        container the value is loaded from.  An operand that is a plain value (attribute, ``len(..)``, parameter, container
+        element) with no bound anywhere on that chain is a violation: a large value spills into the neighbouring bits and
+        ``struct`` does not complain, so the bytes decode to a different message or not at all (e.g. a compression pointer
+        ``0xC000 | offset`` for a name first written at offset >= 0x4000; a flag field without its range check).
+        Expression kinds the evaluator does not model -> ANALYSIS-ERROR.  Values are assumed non-negative.
+NOT decided: value-level round-trip equality (encode . decode = id) over all messages - in particular whether an emitted
+compression pointer refers to the offset where that very name was written, and truncation made explicit (``offset & 0x3FFF``).
 """
 
 from __future__ import annotations
@@ -32,8 +43,9 @@ from ._helpers_H import modules_mentioning
 PROP = "C25"
 REG = {
     "strength": "partial",
-    "technique": "exception-escape sets vs. handler coverage (E5) + must-precede path facts (sentinel) + sibling layout tables (pack vs unpack)",
-    "claim": "every explicit raise and modelled implicit raiser reachable from DNSMessage.unpack on untrusted bytes is handled by DNSLayer.state_query; "
+    "technique": "known-bits abstract interpretation of the encoder's `|` compositions + exception-escape sets vs. handler coverage (E5) + must-precede path facts (sentinel) + sibling layout tables (pack vs unpack)",
+    "claim": "bit-field compositions in the encoder reachable from DNSMessage.packed have provably disjoint operand bit masks (range-checked "
+    "fields, bounded offsets); every explicit raise and modelled implicit raiser reachable from DNSMessage.unpack on untrusted bytes is handled by DNSLayer.state_query; "
     "pointer loops hit a sentinel that is stored before recursing and recursion depth is bounded; the header bit layout, word order and struct "
     "formats of packed and unpack_from agree.",
     "note": "Index arithmetic is discharged only by the named guard facts printed in the evidence (caller checks len(buffer) >= end_data, callee loops "
@@ -393,13 +405,564 @@ def _r25_2(ctx):
     ctx.expect_instances("R25.2", 2)
 
 
+# ---------------------------------------------------------------------------------------------------
+# R25.4  known-bits analysis of the encoder's bit-field compositions
+
+
+class _Unb(tuple):
+    """an operand for which no upper bound is established; carries the def-use chain that was followed"""
+
+    def __new__(cls, *chain):
+        return tuple.__new__(cls, chain)
+
+
+_CYC = object()  # a variable reached again while it is being evaluated (`flags |= x`, `flags = flags | x`)
+_READ_METHODS = ("get", "items", "keys", "values", "pop", "clear", "copy", "index", "count")
+
+
+def _own_nodes(fn):
+    """nodes of ``fn`` without the bodies of nested function definitions (those are analysed on their own)"""
+    todo = list(ast.iter_child_nodes(fn))
+    while todo:
+        n = todo.pop()
+        yield n
+        if not isinstance(n, (ast.FunctionDef, ast.AsyncFunctionDef, ast.Lambda, ast.ClassDef)):
+            todo.extend(ast.iter_child_nodes(n))
+
+
+def _func_of(node):
+    n = getattr(node, "_parent", None)
+    while n is not None and not isinstance(n, (ast.FunctionDef, ast.AsyncFunctionDef)):
+        n = getattr(n, "_parent", None)
+    return n
+
+
+def _qual(fn):
+    q, n = [fn.name], getattr(fn, "_parent", None)
+    while n is not None:
+        if isinstance(n, (ast.FunctionDef, ast.AsyncFunctionDef, ast.ClassDef)):
+            q.append(n.name)
+        n = getattr(n, "_parent", None)
+    return ".".join(reversed(q))
+
+
+def _flatten_or(e):
+    if isinstance(e, ast.BinOp) and isinstance(e.op, ast.BitOr):
+        return _flatten_or(e.left) + _flatten_or(e.right)
+    return [e]
+
+
+def _exclusive(a, b) -> bool:
+    """a and b sit in different arms of the same ``if``: they never both execute"""
+    chain = []
+    n = a
+    while n is not None:
+        chain.append(n)
+        n = getattr(n, "_parent", None)
+    prev, n = b, getattr(b, "_parent", None)
+    while n is not None:
+        if isinstance(n, ast.If) and n in chain:
+            ca = chain[chain.index(n) - 1]
+            in_body = lambda x: any(x is s for s in n.body)  # noqa: E731
+            in_else = lambda x: any(x is s for s in n.orelse)  # noqa: E731
+            return (in_body(ca) and in_else(prev)) or (in_else(ca) and in_body(prev))
+        if n in chain:
+            return False
+        prev, n = n, getattr(n, "_parent", None)
+    return False
+
+
+class EncoderBits:
+    """Possible-bit masks ("known bits") of the integer expressions the encoder composes with ``|``.
+
+    Values are assumed non-negative (fields of a well-formed message, lengths, offsets).  An upper bound comes from
+    a constant, from a guard that dominates the use (``if x > MAX: raise``, ``if x < N:``, early ``return``), from the
+    bounds of everything a local variable is assigned, of every argument passed for a parameter by the callers inside the
+    encoder, or of everything stored into a local container the value is loaded from.  A plain value (attribute, length,
+    parameter, container element) for which no bound is found anywhere on that chain is *unbounded*; expression kinds the
+    evaluator does not model raise AnalysisError."""
+
+    def __init__(self, ctx, rel, qual):
+        self.ctx = ctx
+        self.model = ctx.model
+        root_mod = self.model.module(rel)
+        root = ctx.func(rel, qual)
+        self.funcs: dict[int, tuple] = {}
+        self.calls: dict[int, list] = {}  # id(callee) -> [(module, caller fn, Call)]
+        work = [(root_mod, root)]
+        while work:
+            m, f = work.pop()
+            if id(f) in self.funcs:
+                continue
+            self.funcs[id(f)] = (m, f)
+            for n in _own_nodes(f):
+                if isinstance(n, (ast.FunctionDef, ast.AsyncFunctionDef)):
+                    work.append((m, n))
+                elif isinstance(n, ast.Call):
+                    tgt = self.resolve_call(m, f, n)
+                    if tgt is not None:
+                        self.calls.setdefault(id(tgt[1]), []).append((m, f, n))
+                        work.append(tgt)
+        self._active: list = []
+
+    # ---- resolution
+    def resolve_call(self, m, f, call):
+        fx = call.func
+        if isinstance(fx, ast.Name):
+            g = f
+            while g is not None:
+                for n in _own_nodes(g):
+                    if isinstance(n, (ast.FunctionDef, ast.AsyncFunctionDef)) and n.name == fx.id:
+                        return m, n
+                g = _func_of(g)
+        if isinstance(fx, ast.Attribute) and isinstance(fx.value, ast.Name) and fx.value.id in ("self", "cls"):
+            c = getattr(f, "_parent", None)
+            while c is not None and not isinstance(c, ast.ClassDef):
+                c = getattr(c, "_parent", None)
+            if c is not None and hasattr(c, "_qual"):
+                r = self.model.method(m.rel, c._qual, fx.attr)
+                if r is not None and isinstance(r[1], (ast.FunctionDef, ast.AsyncFunctionDef)):
+                    return r
+            return None
+        r = self.model.resolve_name(m, fx)
+        if r is not None and isinstance(r[1], (ast.FunctionDef, ast.AsyncFunctionDef)):
+            return r
+        return None
+
+    def const(self, m, e, depth=0):
+        if isinstance(e, ast.Constant):
+            if isinstance(e.value, bool):
+                return int(e.value)
+            return e.value if isinstance(e.value, int) else None
+        if depth > 6:
+            return None
+        if isinstance(e, ast.Name):
+            vals = m.assigns(e.id)
+            return self.const(m, vals[0], depth + 1) if len(vals) == 1 else None
+        if isinstance(e, ast.Attribute):
+            if isinstance(e.value, ast.Name) and e.value.id in m.imports:
+                tm = self.model.module_by_dotted(m.imports[e.value.id])
+                if tm is not None:
+                    vals = tm.assigns(e.attr)
+                    return self.const(tm, vals[0], depth + 1) if len(vals) == 1 else None
+            return None
+        if isinstance(e, ast.UnaryOp) and isinstance(e.op, (ast.Invert, ast.USub, ast.UAdd)):
+            v = self.const(m, e.operand, depth + 1)
+            if v is None:
+                return None
+            return ~v if isinstance(e.op, ast.Invert) else -v if isinstance(e.op, ast.USub) else v
+        if isinstance(e, ast.BinOp):
+            a, b = self.const(m, e.left, depth + 1), self.const(m, e.right, depth + 1)
+            if a is None or b is None:
+                return None
+            op = e.op
+            try:
+                if isinstance(op, ast.LShift) and 0 <= b <= 64:
+                    return a << b
+                if isinstance(op, ast.RShift) and 0 <= b <= 64:
+                    return a >> b
+                if isinstance(op, ast.BitOr):
+                    return a | b
+                if isinstance(op, ast.BitAnd):
+                    return a & b
+                if isinstance(op, ast.BitXor):
+                    return a ^ b
+                if isinstance(op, ast.Add):
+                    return a + b
+                if isinstance(op, ast.Sub):
+                    return a - b
+                if isinstance(op, ast.Mult):
+                    return a * b
+                if isinstance(op, ast.Pow) and 0 <= b <= 64:
+                    return a**b
+            except Exception:
+                return None
+        return None
+
+    # ---- bounds from guards
+    def guard_hi(self, m, f, node):
+        """largest value the guards that dominate ``node`` allow for the expression ``node`` (None: no guard)"""
+        text = norm(node)
+        best = None
+        facts = []
+        for e, v in guards_at(node, f):
+            if not isinstance(e, ast.Compare):
+                continue
+            if len(e.ops) == 1:
+                facts.append((e.left, e.comparators[0], type(e.ops[0]), v))
+            elif v:  # a chained comparison that holds: every link holds
+                terms = [e.left] + list(e.comparators)
+                facts.extend((terms[i], terms[i + 1], type(op), True) for i, op in enumerate(e.ops))
+        for l, r, op, v in facts:
+            if norm(l) == text:
+                c = self.const(m, r)
+            elif norm(r) == text:
+                c = self.const(m, l)
+                op = {ast.Lt: ast.Gt, ast.Gt: ast.Lt, ast.LtE: ast.GtE, ast.GtE: ast.LtE}.get(op, op)
+            else:
+                continue
+            if c is None:
+                continue
+            hi = None
+            if v:
+                hi = {ast.Lt: c - 1, ast.LtE: c, ast.Eq: c}.get(op)
+            else:
+                hi = {ast.Gt: c, ast.GtE: c - 1, ast.NotEq: c}.get(op)
+            if hi is not None and hi >= 0:
+                best = hi if best is None else min(best, hi)
+        return best
+
+    # ---- masks
+    @staticmethod
+    def _join(parts):
+        """union of contributions; unbounded wins, a cycle contributes nothing (least fix-point of an OR accumulation)"""
+        out = 0
+        for p in parts:
+            if isinstance(p, _Unb):
+                return p
+            if p is _CYC:
+                continue
+            out |= p
+        return out
+
+    @staticmethod
+    def _of_hi(hi):
+        return (1 << hi.bit_length()) - 1
+
+    def mask(self, m, f, e):
+        """int mask of the bits that can be set in ``e`` | _Unb | _CYC"""
+        c = self.const(m, e)
+        if c is not None:
+            return c if c >= 0 else _Unb(f"{norm(e)} is negative")
+        hi = self.guard_hi(m, f, e)
+        if hi is not None:
+            return self._of_hi(hi)
+        if isinstance(e, ast.BinOp):
+            a, b = self.mask(m, f, e.left), self.mask(m, f, e.right)
+            op = e.op
+            if isinstance(op, ast.BitAnd):
+                known = [x for x in (a, b) if isinstance(x, int)]
+                if known:
+                    out = known[0]
+                    for x in known[1:]:
+                        out &= x
+                    return out
+                # `x & ~K`: at most the bits of x
+                return next((x for x in (a, b) if isinstance(x, _Unb) and "is negative" not in x[0]), a)
+            if isinstance(op, ast.BitOr):
+                return self._join([a, b])
+            for x in (a, b):
+                if x is _CYC:
+                    return _Unb(f"{norm(e)} feeds back into itself")
+            for x in (a, b):
+                if isinstance(x, _Unb):
+                    return x
+            if isinstance(op, ast.BitXor):
+                return a | b
+            if isinstance(op, ast.Add):
+                return self._of_hi(a + b)
+            if isinstance(op, (ast.LShift, ast.RShift)):
+                n = self.const(m, e.right)
+                if n is None or not 0 <= n <= 64:
+                    raise AnalysisError(f"R25.4: shift by a non-constant amount is not modelled: {norm(e)}")
+                return a << n if isinstance(op, ast.LShift) else a >> n
+            raise AnalysisError(f"R25.4: arithmetic in a bit-field operand is not modelled: {norm(e)}")
+        if isinstance(e, ast.IfExp):
+            return self._join([self.mask(m, f, e.body), self.mask(m, f, e.orelse)])
+        key = id(e)
+        if key in self._active:
+            return _CYC
+        self._active.append(key)
+        try:
+            if isinstance(e, ast.Name):
+                return self.var_mask(m, f, e)
+            if isinstance(e, ast.Attribute):
+                if self.is_bool_field(m, f, e):
+                    return 1
+                return _Unb(f"{norm(e)} has no range check")
+            if isinstance(e, ast.Call) and isinstance(e.func, ast.Name) and e.func.id == "bool" and len(e.args) == 1:
+                return 1
+            if isinstance(e, ast.Subscript) and isinstance(e.value, ast.Name):
+                return self.element_mask(m, f, e)
+            if isinstance(e, ast.Call) and isinstance(e.func, ast.Name) and e.func.id == "len" and len(e.args) == 1:
+                return _Unb(f"{norm(e)} has no upper bound")
+            if isinstance(e, ast.Call) and isinstance(e.func, ast.Name) and e.func.id == "int" and len(e.args) == 1:
+                return self.mask(m, f, e.args[0])
+        finally:
+            self._active.pop()
+        raise AnalysisError(f"R25.4: operand of a bit-field composition is not modelled: {norm(e)}")
+
+    def is_bool_field(self, m, f, e) -> bool:
+        """``self.x`` where the enclosing class (or a base) declares ``x: bool``"""
+        if not (isinstance(e.value, ast.Name) and e.value.id == "self"):
+            return False
+        c = getattr(f, "_parent", None)
+        while c is not None and not isinstance(c, ast.ClassDef):
+            c = getattr(c, "_parent", None)
+        if c is None or not hasattr(c, "_qual"):
+            return False
+        for cm, cd in self.model.mro(m.rel, c._qual):
+            for st in cd.body:
+                if isinstance(st, ast.AnnAssign) and isinstance(st.target, ast.Name) and st.target.id == e.attr:
+                    return norm(st.annotation) == "bool"
+        return False
+
+    def _scope_of(self, f, name):
+        """the function (f or an enclosing one) that binds ``name``, and how: 'param' | 'local'"""
+        g = f
+        while g is not None:
+            a = g.args
+            if name in [x.arg for x in a.posonlyargs + a.args + a.kwonlyargs] or name in (a.vararg.arg if a.vararg else None, a.kwarg.arg if a.kwarg else None):
+                return g, "param"
+            for n in _own_nodes(g):
+                if isinstance(n, ast.Name) and n.id == name and isinstance(n.ctx, ast.Store):
+                    return g, "local"
+            g = _func_of(g)
+        return None, None
+
+    def var_mask(self, m, f, e):
+        name = e.id
+        g, how = self._scope_of(f, name)
+        if g is None:
+            return _Unb(f"{name} is not bound in the encoder")
+        if how == "param":
+            return self.param_mask(m, g, name)
+        key = ("var", id(g), name)
+        if key in self._active:
+            return _CYC
+        self._active.append(key)
+        try:
+            parts = []
+            use_fn = _func_of(e)
+            use_loops = [q for q in self._ancestors(e, g) if isinstance(q, (ast.For, ast.While, ast.AsyncFor))] if use_fn is g else []
+
+            def reaches(d) -> bool:
+                """can the binding ``d`` be the one the use ``e`` sees?  (same function: it completed before the use, or
+                both sit in one loop; bindings made by nested functions / seen from nested functions: always)"""
+                if use_fn is not g or _func_of(d) is not g:
+                    return True
+                if (d.end_lineno, d.end_col_offset) <= (e.lineno, e.col_offset):
+                    return True
+                return any(L in use_loops for L in self._ancestors(d, g))
+
+            # the binding function and the functions nested in it (nonlocal writers)
+            for n in ast.walk(g):
+                if isinstance(n, (ast.Assign, ast.AnnAssign, ast.AugAssign)) and not reaches(n):
+                    continue
+                if isinstance(n, ast.Assign):
+                    for t in n.targets:
+                        if isinstance(t, ast.Name) and t.id == name:
+                            parts.append(self.mask(m, _func_of(n) or g, n.value))
+                        elif any(isinstance(x, ast.Name) and x.id == name and isinstance(x.ctx, ast.Store) for x in ast.walk(t)):
+                            parts.append(_Unb(f"{name} is bound by unpacking {norm(n.value)}"))
+                elif isinstance(n, ast.AnnAssign) and isinstance(n.target, ast.Name) and n.target.id == name and n.value is not None:
+                    parts.append(self.mask(m, _func_of(n) or g, n.value))
+                elif isinstance(n, ast.AugAssign) and isinstance(n.target, ast.Name) and n.target.id == name:
+                    v = self.mask(m, _func_of(n) or g, n.value)
+                    if isinstance(n.op, ast.BitOr) or isinstance(v, _Unb):
+                        parts.append(v)
+                    else:
+                        parts.append(_Unb(f"{name} is updated by {norm(n)}"))
+                elif isinstance(n, (ast.For, ast.AsyncFor, ast.comprehension, ast.NamedExpr, ast.withitem)):
+                    t = n.target if not isinstance(n, ast.withitem) else n.optional_vars
+                    if t is not None and any(isinstance(x, ast.Name) and x.id == name for x in ast.walk(t)):
+                        parts.append(_Unb(f"{name} is bound by {type(n).__name__.lower()} without a range check"))
+            r = self._join(parts)
+            return _Unb(f"{name}", *r) if isinstance(r, _Unb) else r
+        finally:
+            self._active.pop()
+
+    def param_mask(self, m, g, name):
+        key = ("param", id(g), name)
+        if key in self._active:
+            return _CYC
+        sites = self.calls.get(id(g), [])
+        if not sites:
+            return _Unb(f"parameter {name} of {_qual(g)} has no range check")
+        a = g.args
+        pos = [x.arg for x in a.posonlyargs + a.args]
+        defaults = dict(zip(reversed(pos), reversed(a.defaults)))
+        defaults.update({k.arg: d for k, d in zip(a.kwonlyargs, a.kw_defaults) if d is not None})
+        self._active.append(key)
+        try:
+            parts = []
+            for cm, cf, call in sites:
+                skip = 1 if pos[:1] in (["self"], ["cls"]) and isinstance(call.func, ast.Attribute) else 0
+                if any(isinstance(x, ast.Starred) for x in call.args) or any(k.arg is None for k in call.keywords):
+                    raise AnalysisError(f"R25.4: star-arguments in {norm(call)} are not modelled")
+                arg = None
+                if name in pos and pos.index(name) - skip < len(call.args) and pos.index(name) - skip >= 0:
+                    arg = call.args[pos.index(name) - skip]
+                for k in call.keywords:
+                    if k.arg == name:
+                        arg = k.value
+                if arg is None:
+                    if name not in defaults:
+                        raise AnalysisError(f"R25.4: no argument for {name} in {norm(call)}")
+                    parts.append(self.mask(m, g, defaults[name]))
+                    continue
+                v = self.mask(cm, cf, arg)
+                parts.append(_Unb(f"{norm(arg)} passed by {_qual(cf)}", *v) if isinstance(v, _Unb) else v)
+            r = self._join(parts)
+            return _Unb(f"parameter {name} of {_qual(g)}", *r) if isinstance(r, _Unb) else r
+        finally:
+            self._active.pop()
+
+    def element_mask(self, m, f, e):
+        """``cont[key]`` where cont is a container local to the encoder: union over everything stored into it"""
+        name = e.value.id
+        g, how = self._scope_of(f, name)
+        if how != "local":
+            return _Unb(f"{norm(e)}: elements of {name} have no range check")
+        parts = []
+        for n in ast.walk(g):
+            if isinstance(n, ast.Name) and n.id == name:
+                p = n._parent
+                fn_here = _func_of(n) or g
+                if isinstance(n.ctx, ast.Store):
+                    st = p
+                    if isinstance(st, (ast.Assign, ast.AnnAssign)) and st.value is not None and (
+                        (isinstance(st.value, (ast.Dict, ast.List)) and not (getattr(st.value, "keys", None) or getattr(st.value, "elts", None)))
+                        or (isinstance(st.value, ast.Call) and isinstance(st.value.func, ast.Name) and st.value.func.id in ("dict", "list") and not st.value.args and not st.value.keywords)
+                    ):
+                        continue
+                    raise AnalysisError(f"R25.4: container {name} is initialised in a way that is not modelled: {norm(st)[:80]}")
+                if isinstance(p, ast.Subscript) and p.value is n:
+                    if isinstance(p.ctx, ast.Store):
+                        st = p._parent
+                        if isinstance(st, ast.Assign) and len(st.targets) == 1:
+                            v = self.mask(m, fn_here, st.value)
+                            parts.append(_Unb(f"{norm(st)} in {_qual(fn_here)}", *v) if isinstance(v, _Unb) else v)
+                        else:
+                            raise AnalysisError(f"R25.4: store into {name} is not modelled: {norm(st)[:80]}")
+                    continue
+                if isinstance(p, ast.Compare) and any(n is c for c in p.comparators):
+                    continue
+                if isinstance(p, ast.Attribute) and isinstance(p._parent, ast.Call) and p._parent.func is p:
+                    call = p._parent
+                    if p.attr in _READ_METHODS:
+                        continue
+                    if p.attr in ("setdefault", "append") and len(call.args) == (2 if p.attr == "setdefault" else 1):
+                        v = self.mask(m, fn_here, call.args[-1])
+                        parts.append(_Unb(f"{norm(call)} in {_qual(fn_here)}", *v) if isinstance(v, _Unb) else v)
+                        continue
+                if isinstance(p, ast.Nonlocal):
+                    continue
+                raise AnalysisError(f"R25.4: container {name} is used in a way that is not modelled: {norm(p)[:80]}")
+        if not parts:
+            raise AnalysisError(f"R25.4: nothing is ever stored into {name}")
+        r = self._join(parts)
+        return _Unb(f"{norm(e)}", *r) if isinstance(r, _Unb) else r
+
+    # ---- compositions
+    def compositions(self):
+        """[(module, fn, node, whole-text, [(leaf expr, [other leaf exprs])])]"""
+        out = []
+        for m, f in self.funcs.values():
+            accs: dict[str, list] = {}
+            for n in sorted(_own_nodes(f), key=lambda x: (getattr(x, "lineno", 0), getattr(x, "col_offset", 0))):
+                if isinstance(n, ast.AugAssign) and isinstance(n.op, ast.BitOr) and isinstance(n.target, ast.Name):
+                    accs.setdefault(n.target.id, []).append(n)
+                elif isinstance(n, ast.BinOp) and isinstance(n.op, ast.BitOr):
+                    p = n._parent
+                    if isinstance(p, ast.BinOp) and isinstance(p.op, ast.BitOr):
+                        continue  # part of a longer chain
+                    if isinstance(p, ast.AugAssign) and isinstance(p.op, ast.BitOr) and isinstance(p.target, ast.Name):
+                        continue  # flattened with the accumulation
+                    leaves = self.add_parts(m, _flatten_or(n))
+                    out.append((m, f, n, norm(n), [(x, [y for y in leaves if y is not x]) for x in leaves]))
+                elif isinstance(n, ast.BinOp) and isinstance(n.op, ast.Add) and self.is_field_add(m, n):
+                    p = n._parent
+                    if isinstance(p, ast.BinOp) and isinstance(p.op, ast.BitOr):
+                        continue
+                    leaves = [n.left, n.right]
+                    out.append((m, f, n, norm(n), [(x, [y for y in leaves if y is not x]) for x in leaves]))
+            for name, augs in accs.items():
+                inits = [x.value for x in _own_nodes(f) if isinstance(x, ast.Assign) and any(isinstance(t, ast.Name) and t.id == name for t in x.targets)]
+                contrib = [(a, leaf) for a in augs for leaf in self.add_parts(m, _flatten_or(a.value))]
+                for a, leaf in contrib:
+                    in_loop = any(isinstance(q, (ast.For, ast.While, ast.AsyncFor)) for q in self._ancestors(a, f))
+                    others = [l2 for a2, l2 in contrib if (l2 is not leaf or in_loop) and not _exclusive(a, a2)] + inits
+                    out.append((m, f, a, f"{name} |= {norm(a.value)}", [(leaf, others)]))
+        return out
+
+    @staticmethod
+    def _ancestors(n, stop):
+        n = getattr(n, "_parent", None)
+        while n is not None and n is not stop:
+            yield n
+            n = getattr(n, "_parent", None)
+
+    def is_field_add(self, m, n):
+        """``K + x`` with a constant K whose low byte is zero, used as a struct field / inside an OR: a bit-field composition
+        written with ``+``"""
+        ks = [self.const(m, x) for x in (n.left, n.right)]
+        if sum(k is not None for k in ks) != 1:
+            return False
+        k = next(k for k in ks if k is not None)
+        if not (k > 0 and k & 0xFF == 0):
+            return False
+        p = n._parent
+        if isinstance(p, ast.BinOp) and isinstance(p.op, ast.BitOr):
+            return True
+        return isinstance(p, ast.Call) and isinstance(p.func, ast.Attribute) and p.func.attr in ("pack", "pack_into") and any(n is a for a in p.args)
+
+    def add_parts(self, m, leaves):
+        out = []
+        for x in leaves:
+            if isinstance(x, ast.BinOp) and isinstance(x.op, ast.Add) and self.is_field_add(m, x):
+                out += [x.left, x.right]
+            else:
+                out.append(x)
+        return out
+
+
+def _r25_4(ctx):
+    eb = EncoderBits(ctx, DNS, "DNSMessage.packed")
+    for m, f in eb.funcs.values():
+        ctx.functions.add(f"{m.rel}::{_qual(f)}")
+    n_fields = 0
+    for m, f, node, text, items in eb.compositions():
+        where = (m.rel, _qual(f), node)
+        for leaf, others in items:
+            lm = eb.mask(m, _func_of(leaf) or f, leaf)
+            if lm is _CYC:
+                continue
+            if isinstance(lm, int) and lm == 0:
+                continue
+            ctx.cells += 1
+            rest = 0
+            rest_unb = None
+            for o in others:
+                om = eb.mask(m, _func_of(o) or f, o)
+                if isinstance(om, _Unb):
+                    rest_unb = rest_unb or om
+                elif om is not _CYC:
+                    rest |= om
+            if isinstance(lm, _Unb):
+                ctx.fail("R25.4", where, f"`{text}`: operand {norm(leaf)} is unbounded",
+                         f"no range check bounds {norm(leaf)} before it is merged into the bit field (followed: {' <- '.join(lm)}); the other operands occupy bits {rest:#x}: "
+                         "a large value silently spills into them, so the encoded bytes decode to a different message (or do not decode)", chain=list(lm))
+                continue
+            n_fields += 1
+            if rest_unb is not None:
+                continue  # reported at the unbounded operand
+            ctx.check(lm & rest == 0, "R25.4", where, f"`{text}`: operand {norm(leaf)} occupies bits {lm:#x}",
+                      f"{norm(leaf)} can set bits {lm:#x}, which overlap the bits {rest:#x} of the other operands merged into the same value: the fields cannot be separated again when decoding",
+                      desc=f"{_qual(f)}: {norm(leaf)} <= bits {lm:#x}, disjoint from the other operands of `{text[:40]}`")
+    ctx.note(f"R25.4: encoder = {sorted(_qual(f) for m, f in eb.funcs.values())}; {n_fields} bounded bit-field operands")
+    ctx.expect_instances("R25.4", 8)
+
+
 def check(ctx):
     ctx.rule("R25.1", "pointer loops terminate: sentinel stored before recursing, sentinel hit raises, labels consume >= 1 byte")
     ctx.rule("R25.2", "header bit layout, word order and struct formats agree between DNSMessage.packed and unpack_from")
+    ctx.rule("R25.4", "bit-field compositions (`a | b`, `K + b`) in the encoder reachable from DNSMessage.packed are lossless: possible-bit masks of the operands are disjoint")
     ctx.rule("R25.3", "escape set of DNSMessage.unpack on untrusted bytes is within the types handled by DNSLayer.state_query")
     _r25_1(ctx)
     _r25_2(ctx)
     _r25_3(ctx)
+    _r25_4(ctx)
 
 
 MUTANTS = [
@@ -417,6 +980,19 @@ MUTANTS = [
            "        start_offset = offset\n        labels = []\n        while True:\n            (size,) = _LABEL_SIZE.unpack_from(buffer, offset)\n            cache[start_offset] = None\n", "R25.1"),
     Mutant("sentinel-hit-does-not-raise", DN, "        if result is None:\n            raise struct.error(f\"unpack encountered domain name loop\")\n", "        if result is None:\n            result = (\"\", 0)\n", "R25.1"),
     Mutant("empty-label-consumes-nothing", DN, "    elif size == 0:\n        return _LABEL_SIZE.size\n", "    elif size == 0:\n        return 0\n", "R25.1"),
+    # R25.4 (the first one is the essence of seed C25b, written inside dns.py: pointer offset taken from len(data) without a 14-bit bound)
+    Mutant("owner-names-compressed-with-unchecked-pointer-offset", DNS,
+           "        for rr in (*self.answers, *self.authorities, *self.additionals):\n            data.extend(domain_names.pack(rr.name))\n",
+           "        offsets: dict[str, int] = {}\n        for rr in (*self.answers, *self.authorities, *self.additionals):\n            if rr.name in offsets:\n"
+           "                data.extend(struct.pack(\"!H\", 0xC000 | offsets[rr.name]))\n            else:\n                offsets[rr.name] = len(data)\n"
+           "                data.extend(domain_names.pack(rr.name))\n", "R25.4"),
+    Mutant("pointer-offset-bound-one-bit-too-wide", DNS,
+           "        for rr in (*self.answers, *self.authorities, *self.additionals):\n            data.extend(domain_names.pack(rr.name))\n",
+           "        offsets: dict[str, int] = {}\n        for rr in (*self.answers, *self.authorities, *self.additionals):\n            if rr.name in offsets:\n"
+           "                data.extend(struct.pack(\"!H\", 0xC000 + offsets[rr.name]))\n            else:\n                if len(data) < 0x8000:\n                    offsets[rr.name] = len(data)\n"
+           "                data.extend(domain_names.pack(rr.name))\n", "R25.4"),
+    Mutant("response-code-range-check-dropped", DNS, "        if self.response_code < 0 or self.response_code > 0b1111:\n            raise ValueError(\n                f\"DNS message's response_code {self.response_code} is out of bounds.\"\n            )\n", "", "R25.4"),
+    Mutant("reserved-shifted-into-ra-bit", DNS, "        flags |= self.reserved << 4\n", "        flags |= self.reserved << 5\n", "R25.4"),
     # R25.2
     Mutant("opcode-unpacked-one-bit-off", DNS, "op_code=(flags >> 11) & 0b1111,", "op_code=(flags >> 12) & 0b1111,", "R25.2"),
     Mutant("truncation-and-rd-bits-swapped-in-pack", DNS, "        if self.truncation:\n            flags |= 1 << 9\n        if self.recursion_desired:\n            flags |= 1 << 8\n",
